@@ -1,6 +1,6 @@
 (* C02 — no access outside the allocated block while within declared capacity. *)
 From Coq Require Import ZArith List Bool Lia.
-From Cntgs Require Import Base Layout Mem Vector Spec Rep EsizeThm Refine C02Thm NeededThm C02Hist NtRefine C02HistNt EmplacePos.
+From Cntgs Require Import Base Layout Mem Vector Spec Rep EsizeThm Refine C02Thm NeededThm C02Hist NtRefine C02HistNt EmplacePos World MoveBlock.
 Import ListNotations.
 Local Open Scope Z_scope.
 
@@ -169,3 +169,15 @@ Theorem C02_emplace_position_then_erase_gives_back_the_list : forall L, wf_plist
   Rep L (fst (erase L (fst (emplace_pos L v (Z.of_nat i) t)) (Z.of_nat i))) l.
 Proof. exact emplace_then_erase. Qed.
 Print Assumptions C02_emplace_position_then_erase_gives_back_the_list.
+
+(* assignment clause, move assignment under EVERY allocator trait combination and parameter
+   list: the target reports the source's capacity and owns a block - stolen, new, or its own
+   one reused - of at least the source's block's bytes; C02_every_history_stays_inside_the_block
+   says those bytes hold that capacity.  (The reuse branch must compare the BLOCKS, not the
+   bytes in use: seed C02n.) *)
+Theorem C02_move_assigned_block_holds_the_new_capacity : forall K L d src junk nb,
+  0 < SA L -> 0 <= v_units src ->
+  let '(d', _, _, _) := move_assign K L d src junk nb in
+  v_cap d' = v_cap src /\ consumption L src <= consumption L d'.
+Proof. exact move_assign_block_suffices. Qed.
+Print Assumptions C02_move_assigned_block_holds_the_new_capacity.
